@@ -10,23 +10,53 @@ RULE = ("VALIDATION RUNS (numerical, not obligations): (wertheim) one-component 
         "(g at the first grid point outside the core), S(k) at the resolved wavenumbers of the coarsest grid, extrapolated S(0), c(r) at the fixed r of the coarsest grid compared with the Wertheim-Thiele "
         "functions EVALUATED BY THE LEAN DRIVER (wtContact, wtS0, wtC; S(k) by high-order quadrature of wtC): errors must be <= K(eta)*dr on every member (K = 2.5 x the largest ratio seen on the unchanged tree); (dilute) every shipped "
         "potential x {PY, HNC, MSA+core} x kT in {0.7, 1, 2.5} at rho = 1e-6: g vs exp(-u/kT) / 1-u/kT (0 inside a core) and second_virial vs -2 pi Int (e^{-u/kT}-1) r^2 dr on two grids; "
-        "(cost) the rank-1 OZ reduction h(1 - rho omega c) = omega c omega on arbitrary x. Non-trivial = all; distinct = distinct case")
+        "(scan) density scans re-using one System, objects created first and solved later; (cost) the rank-1 OZ reduction h(1 - rho omega c) = omega c omega on arbitrary x. Non-trivial = all; distinct = distinct case")
 EXTRA_TRUSTED = C01.EXTRA_TRUSTED + ["Wertheim-Thiele closed forms (textbook); S(k) of the reference by Gauss-Legendre quadrature of the cubic c(r)"]
 ASSUMPTIONS = ["fluid-range packing fractions (eta <= 0.45) on which krylov converges", "the O(dr) constant is taken from the coarsest member of the refinement family"]
 BUDGET = {'quick': 1200, 'thorough': 5400}
+T1 = G.TYPES[0]
 
 def solve1(eta, dr, L, hc, kT=1.0, pot=None, clo='py', rho=None, method='krylov'):
-    s = pyPRISM.System(['A'], kT=kT)
+    s = pyPRISM.System([T1], kT=kT)
     s.domain = pyPRISM.Domain(length=L, dr=dr)
-    s.density['A'] = rho if rho is not None else eta * 6 / math.pi
-    s.diameter['A'] = 1.0
-    s.potential['A', 'A'] = pot if pot is not None else pyPRISM.potential.HardSphere()
-    s.closure['A', 'A'] = G.mk_clo([clo, hc])
-    s.omega['A', 'A'] = pyPRISM.omega.SingleSite()
+    s.density[T1] = rho if rho is not None else eta * 6 / math.pi
+    s.diameter[T1] = 1.0
+    s.potential[T1, T1] = pot if pot is not None else pyPRISM.potential.HardSphere()
+    s.closure[T1, T1] = G.mk_clo([clo, hc])
+    s.omega[T1, T1] = pyPRISM.omega.SingleSite()
     p = s.createPRISM()
     res = C01.solve_quiet(p, None, method)
     if isinstance(res, Exception) or not res.success: return None
     return p
+
+def suite_scan(ctx, case):
+    """a density scan that re-uses ONE System: PRISM objects are created for several packing fractions first and solved
+    afterwards (in another order); each must reproduce the Wertheim-Thiele values of ITS OWN state point"""
+    etas = case['etas']; N = case['N']; dr = case['dr']
+    s = pyPRISM.System([T1], kT=1.0)
+    s.domain = pyPRISM.Domain(length=N, dr=dr)
+    s.diameter[T1] = 1.0
+    s.potential[T1, T1] = pyPRISM.potential.HardSphere(); s.closure[T1, T1] = pyPRISM.closure.PercusYevick(); s.omega[T1, T1] = pyPRISM.omega.SingleSite()
+    objs = []
+    for eta in etas:
+        s.density[T1] = eta * 6 / math.pi
+        objs.append((eta, s.createPRISM()))
+    for eta, p in (objs[::-1] if case['reverse'] else objs):
+        res = C01.solve_quiet(p, None, 'krylov')
+        ctx.validation_runs += 1
+        if isinstance(res, Exception) or not res.success:
+            ctx.dist['scan:not-converged'] += 1; continue
+        out = ctx.drv.ask('wt %s %s' % (f2h(eta), f2h(0.5))).split()
+        contact = h2f(out[0]); S0 = h2f(out[1])
+        d = p.sys.domain
+        g = pyPRISM.calculate.pair_correlation(p)[T1, T1]
+        first = int(np.argmax(d.r > 1.0 + 1e-9))
+        S = pyPRISM.calculate.structure_factor(p)[T1, T1]
+        k3 = d.k[:3]; y3 = S[:3]
+        y0 = y3[0] * k3[1] * k3[2] / ((k3[0] - k3[1]) * (k3[0] - k3[2])) + y3[1] * k3[0] * k3[2] / ((k3[1] - k3[0]) * (k3[1] - k3[2])) + y3[2] * k3[0] * k3[1] / ((k3[2] - k3[0]) * (k3[2] - k3[1]))
+        ok = abs(g[first] - contact) / contact <= (0.1 + 1.2 * eta) * dr + 1e-3 and abs(y0 - S0) <= 0.8 * dr + 1e-3
+        ctx.pred('scan', case, ok, 'density scan on one System: the object created at eta=%g gives contact %.4g (exact %.4g), S(0) %.4g (exact %.4g)' % (eta, g[first], contact, y0, S0),
+                 key='C02:scan')
 
 def wt_S(eta, k, cfun):
     """S(k) = 1/(1 - rho c(k)), c(k) = 4 pi Int_0^1 c(r) r sin(kr)/k dr by 64-point Gauss-Legendre"""
@@ -54,11 +84,11 @@ def suite_wertheim(ctx, case):
         if p is None:
             ctx.dist['wertheim:not-converged'] += 1; return
         d = p.sys.domain
-        g = pyPRISM.calculate.pair_correlation(p)['A', 'A']
+        g = pyPRISM.calculate.pair_correlation(p)[T1, T1]
         first = int(np.argmax(d.r > 1.0 + 1e-9))
         e_contact.append(abs(g[first] - contact) / contact)
-        Sun = pyPRISM.calculate.structure_factor(p, normalize=False)['A', 'A'] / (eta * 6 / math.pi)
-        S = pyPRISM.calculate.structure_factor(p)['A', 'A']
+        Sun = pyPRISM.calculate.structure_factor(p, normalize=False)[T1, T1] / (eta * 6 / math.pi)
+        S = pyPRISM.calculate.structure_factor(p)[T1, T1]
         ctx.pred('wertheim', case, bool(np.allclose(S, Sun, rtol=1e-9, atol=1e-12)), 'normalised S(k) differs from the unnormalised one divided by rho', key='C02:wertheim:S(k)')
         nk = N0 // 4
         Sref = wt_S(eta, d.k[:nk], cfun)
@@ -68,12 +98,12 @@ def suite_wertheim(ctx, case):
         e_S0.append(abs(y0 - S0))
         c = p.directCorr.get_copy(); d.MatrixArray_to_real(c)
         q = N // N0
-        cr = c['A', 'A'][q - 1::q][:N0]
+        cr = c[T1, T1][q - 1::q][:N0]
         sel = ins & (r0 < 1.0 - 1.5 * rmax / N0)
         e_c.append(float(np.max(np.abs(cr[sel] - cref_all[sel]))) / float(np.max(np.abs(cref_all[sel]))))
         # no probability inside the core, c = 0 outside the core (PY hard spheres)
         outside = d.r > 1.0 + 1e-9
-        ctx.pred('wertheim', case, float(np.max(np.abs(c['A', 'A'][outside]))) <= 1e-4, 'PY hard spheres: c(r) is not zero outside the core (%.3g)' % np.max(np.abs(c['A', 'A'][outside])), key='C02:c-outside')
+        ctx.pred('wertheim', case, float(np.max(np.abs(c[T1, T1][outside]))) <= 1e-4, 'PY hard spheres: c(r) is not zero outside the core (%.3g)' % np.max(np.abs(c[T1, T1][outside])), key='C02:c-outside')
         drs.append(dr)
     case2 = dict(case, errors={'contact': e_contact, 'S': e_S, 'S0': e_S0, 'c': e_c})
     for _n, _e in case2['errors'].items():
@@ -104,7 +134,7 @@ def suite_dilute(ctx, case):
         Uref = mk_pot(case['pot']); Uref.sigma = 1.0
         with np.errstate(all='ignore'):
             u = Uref.calculate(d.r) / kT
-        g = pyPRISM.calculate.pair_correlation(p)['A', 'A']
+        g = pyPRISM.calculate.pair_correlation(p)[T1, T1]
         if clo == 'msa':
             want = np.where(d.r > 1.0, 1.0 - u, 0.0)
         else:
@@ -114,7 +144,7 @@ def suite_dilute(ctx, case):
         fin = np.isfinite(want)
         errs_g.append(float(np.max(np.abs(g[fin] - want[fin]) / (1.0 + np.abs(want[fin])))))
         if clo != 'msa':
-            B2 = pyPRISM.calculate.second_virial(p, extrapolate=True)['A', 'A']
+            B2 = pyPRISM.calculate.second_virial(p, extrapolate=True)[T1, T1]
             # reference integral on a much finer grid of the same function (the closure's g with its own core rule)
             rf = (np.arange(200000) + 0.5) * (d.r[-1] / 200000)
             with np.errstate(all='ignore'):
@@ -152,11 +182,11 @@ def suite_oz(ctx, case):
     cond = float(np.max(1.0 / np.abs(1 - rho * om * c)))
     if cond > 1e6: return
     ctx.pred('oz', case, float(np.max(np.abs(lhs - rhs))) <= 1e-10 * sc * cond, 'rank-1 OZ relation h(1 - rho omega c) = omega c omega violated after cost(x): %.3g' % np.max(np.abs(lhs - rhs)), key='C02:rank1-oz')
-    S = pyPRISM.calculate.structure_factor(p, normalize=True)['A', 'A']
+    S = pyPRISM.calculate.structure_factor(p, normalize=True)[T1, T1]
     ctx.pred('oz', case, float(np.max(np.abs(S * (1 - rho * om * c) - om))) <= 1e-9 * sc * cond, 'S (1 - rho omega c) = omega violated', key='C02:rank1-oz')
 
 RATIOS = {}
-SUITES = {'wertheim': suite_wertheim, 'dilute': suite_dilute, 'oz': suite_oz}
+SUITES = {'scan': suite_scan, 'wertheim': suite_wertheim, 'dilute': suite_dilute, 'oz': suite_oz}
 
 def generate(ctx):
     rng = ctx.rng
@@ -166,6 +196,9 @@ def generate(ctx):
         N0 = rng.choice([128, 160]) if rmax == 16.0 else 128
         case = {'eta': eta, 'rmax': rmax, 'N0': N0, 'Ns': [N0, 2 * N0] + ([] if ctx.quick() else [4 * N0]), 'hc': rng.random() < 0.5}
         ctx.case('wertheim', case, True, tags=['eta:%g' % eta, 'hc:%s' % case['hc']]); suite_wertheim(ctx, case)
+    for _ in range(ctx.n(3, 20)):
+        case = {'etas': sorted(rng.sample([0.05, 0.1, 0.15, 0.2, 0.25, 0.3, 0.35], 3)), 'N': 128, 'dr': rng.choice([0.1, 0.125]), 'reverse': rng.random() < 0.5}
+        ctx.case('scan', case, True, tags=['scan']); suite_scan(ctx, case)
     pots = [['hs', None, 1e6], ['exp', None, 0.5, 0.5, 1e6], ['exp', None, -0.4, 0.7, 1e6], ['hclj', None, 0.6, 1e6], ['lj', None, 0.7], ['ljshift', None, 1.0, 2.5], ['ljcut', None, 0.5, 2.0], ['wca', None, 1.0]]
     combos = [(p, c) for p in pots for c in ('py', 'hnc', 'msa')]
     if ctx.quick(): combos = rng.sample(combos, 10)
